@@ -647,11 +647,27 @@ fn pkcs8_der(kind: &KeyPairKind, key: &PrivateKeyDer<'_>) -> Result<Vec<u8>, Err
 	use aws_lc_rs::encoding::AsDer;
 
 	Ok(match (key, kind) {
-		(PrivateKeyDer::Pkcs8(_), _) => key.secret_der().to_vec(),
+		// The variant of `key` is only what the caller claims; the loaders take either form.
+		_ if is_pkcs8(key.secret_der()) => key.secret_der().to_vec(),
 		(_, KeyPairKind::Ec(key_pair)) => key_pair.to_pkcs8v1()._err()?.as_ref().to_vec(),
 		(_, KeyPairKind::Rsa(key_pair, _)) => key_pair.as_der()._err()?.as_ref().to_vec(),
 		_ => key.secret_der().to_vec(),
 	})
+}
+
+/// Whether `der` is framed as a PKCS#8 `PrivateKeyInfo`: after the version, PKCS#8 has the
+/// algorithm identifier (a SEQUENCE), SEC1 an OCTET STRING and PKCS#1 an INTEGER.
+#[cfg(all(feature = "crypto", feature = "aws_lc_rs"))]
+fn is_pkcs8(der: &[u8]) -> bool {
+	let Some(rest) = der.strip_prefix(&[0x30]) else {
+		return false;
+	};
+	let version = match rest.first() {
+		Some(len) if *len < 0x80 => 1,
+		Some(len) => 1 + (*len & 0x7f) as usize,
+		None => return false,
+	};
+	matches!(rest.get(version..version + 4), Some([0x02, 0x01, _, 0x30]))
 }
 
 /// The key size used for RSA key generation
